@@ -52,6 +52,12 @@ func corpus() []Case {
 			Tar: []Ent{{Name: "a", Kind: "reg", Mode: 0o644, Mtime: 1, Data: seqBytes(5, 10)}, {Name: "e", Kind: "reg", Mode: 0o644, Mtime: 1},
 				{Name: "c", Kind: "reg", Mode: 0o644, Mtime: 1, Data: seqBytes(7, 200)}, {Name: "z", Kind: "reg", Mode: 0o644, Mtime: 1, Data: seqBytes(3, 50)}},
 			Ops: []Op{{Op: "read", File: 0, Off: 0, Len: 5}, {Op: "read", File: 1, Off: 0, Len: 7}, {Op: "read", File: 2, Off: 0, Len: 1}, {Op: "read", File: 3, Off: 0, Len: 3}, {Op: "prefetch"}, {Op: "read", File: 1, Off: 2, Len: 4}}},
+		// passthrough: no merge worker; a chunk crossing a merge-buffer boundary; a chunk larger than the buffer
+		{Kind: "serve", ChunkSize: 4, Workers: 1, Cache: "dirdirect",
+			Tar: []Ent{{Name: "f", Kind: "reg", Mode: 0o644, Mtime: 1, Data: seqBytes(14, 1)}, {Name: "g", Kind: "reg", Mode: 0o644, Mtime: 1, Data: seqBytes(14, 50)},
+				{Name: "h", Kind: "reg", Mode: 0o644, Mtime: 1, Data: seqBytes(14, 100)}, {Name: "i", Kind: "reg", Mode: 0o644, Mtime: 1, Data: seqBytes(16, 150)}},
+			Ops: []Op{{Op: "pt", File: 0, Mbs: 8, Workers: 0}, {Op: "pt", File: 1, Mbs: 6, Workers: 2}, {Op: "pt", File: 2, Mbs: 3, Workers: 1},
+				{Op: "pt", File: 3, Mbs: 8, Workers: 3}, {Op: "read", File: 0, Off: 3, Len: 9}, {Op: "pt", File: 0, Mbs: 8, Workers: 2}}},
 		// dangling hardlink: the layer is not servable
 		{Kind: "serve", ChunkSize: 4, Workers: 1, Cache: "mem", Tar: []Ent{{Name: "a", Kind: "hardlink", Link: "nope", Mtime: 1}}},
 		{Kind: "clean", Name: "../a/./b//c/../d/"},
@@ -341,7 +347,18 @@ func genServe(r *hx.Rng, tier string) Case {
 		if c.Cache != "mem" {
 			wpar = 5
 		}
-		switch r.Pick(76, 6, 12, 6, wpar, 3) {
+		wpt := 0
+		if c.Cache == "dirdirect" {
+			wpt = 12
+		}
+		switch r.Pick(76, 6, 12, 6, wpar, 3, wpt) {
+		case 6:
+			cs := int64(c.ChunkSize)
+			mbs := []int64{1, cs - 1, cs, cs + 1, 2 * cs, 2*cs + 1, 3*cs - 1, 5 * cs, 1 << 20}[r.Intn(9)]
+			if mbs < 1 {
+				mbs = 1
+			}
+			c.Ops = append(c.Ops, Op{Op: "pt", File: r.Intn(8), Mbs: mbs, Workers: r.Range(0, 4)})
 		case 5:
 			c.Ops = append(c.Ops, Op{Op: "grow"})
 		case 4:
